@@ -54,8 +54,10 @@ class Backfilling(TMGRSchedulingComponent):
 
         # pilots just got added.  If we did not have any pilot before, we might
         # have tasks in the wait queue waiting -- now is a good time to take
-        # care of those!
-        with self._wait_lock:
+        # care of those!  Scheduling takes the pilots lock before the wait
+        # lock, everywhere: keep that order, or this (control) thread and the
+        # worker / state notification threads block each other for good.
+        with self._pilots_lock, self._wait_lock:
 
             # initialize custom data for the pilot
             for pid in pids:
